@@ -119,6 +119,10 @@ pub fn unmarshal_body(
         let new_param = unmarshal_with_sig(param_sig, &mut ctx)?;
         params.push(new_param);
     }
+    // a body is exactly the values its signature names, like MarshalledMessageBody::validate demands
+    if !ctx.remainder().is_empty() {
+        return Err(UnmarshalError::NotAllBytesUsed);
+    }
     Ok(params)
 }
 
